@@ -427,6 +427,31 @@ def run_ph(acc, nt):
                     acc.violation(["parserhelper", "pow", "zero-exponent-entry-survives"], case, "no zero entry", srepr(r))
                 elif gm != fr(wm) or Fraction(r.scale) != Fraction(su_) ** a:
                     acc.violation(["parserhelper", "pow", "wrong-result", nt], case, [str(Fraction(su_) ** a), jm(wm)], srepr(r))
+            # identity of results: a result compares and hashes equal to a helper BUILT with the same scale and
+            # exponents, whether or not the operand had been hashed (or compared) before the operation; the
+            # reflected reciprocal 1 / u included. State variants: never-hashed operand, pre-hashed operand.
+            for state in ("never-hashed", "pre-hashed"):
+                w = mk(su_, mu)
+                if state == "pre-hashed":
+                    UnitsContainer.__hash__(w)
+                    w == mk(su_, mu)
+                results = [("u**%d" % a, w**a, m_pow(mu, a)) for a in (-1, 0, 1, 2, 3)]
+                results += [("1/u", 1 / w, m_pow(mu, -1)), ("u*u", w * w, m_pow(mu, 2)), ("u/u", w / w, {}), ("u*1", w * 1, dict(mu)), ("copy", w.copy(), dict(mu))]
+                for opn, r, wm in results:
+                    acc.ev()
+                    gm = as_model(r)
+                    if gm != fr(wm):
+                        continue  # reported by the clauses above (or a wrong result of the reflected form, below)
+                    fresh = ParserHelper(r.scale, {k: conv(v, nt) for k, v in wm.items() if v != 0}, non_int_type=T)
+                    case = {"layer": "parserhelper", "nt": nt, "u": [str(su_), jm(mu)], "op": opn, "operand_state": state, "clause": "ph-identity"}
+                    if not (r == fresh) or (r != fresh) or not (fresh == r):
+                        acc.violation(["parserhelper", "result-identity", "result-unequal-to-helper-built-with-the-same-exponents", state], case, "== helper built from " + srepr(fresh), srepr(r))
+                    elif r.scale == 1 and hash(r) != hash(fresh):
+                        acc.violation(["parserhelper", "result-identity", "stale-or-wrong-hash", state], case, hash(fresh), hash(r))
+                    elif r.scale == 1 and (not (r == mk_uc(wm, nt)) or hash(r) != hash(mk_uc(wm, nt))):
+                        acc.violation(["parserhelper", "result-identity", "differs-from-container-with-the-same-exponents", state], case, srepr(mk_uc(wm, nt)), srepr(r))
+                if as_model(1 / w) != fr(m_pow(mu, -1)) or Fraction((1 / w).scale) != 1 / Fraction(su_):
+                    acc.violation(["parserhelper", "rtruediv", "wrong-result", nt], {"layer": "parserhelper", "nt": nt, "u": [str(su_), jm(mu)], "op": "1/u", "operand_state": state, "clause": "ph-identity"}, [str(1 / Fraction(su_)), jm(m_pow(mu, -1))], srepr(1 / w))
     # from_string agrees with the algebra for every rendered product
     for mu in models:
         txt = " * ".join(f"{k} ** {v}" if v >= 0 else f"{k} ** ({v})" for k, v in sorted(mu.items())) or "1"
@@ -767,3 +792,4 @@ def replay(rec):
 
 MANIFEST = {'category': 'exploration', 'technique': 'bounded exhaustive enumeration of unit containers / dimension matrices against an exponent-vector reference model (small-scope model checking of the operator algebra)', 'text': 'Every container over a 3-name alphabet with exponents in a small range, every ordered pair (* /, ==, hash), every triple of the sub-alphabet (associativity), every (u,a,b) power-law instance, at the UnitsContainer, ParserHelper, Unit, Quantity-unit and dimensionality layers and for int/float/Fraction/Decimal exponents, plus every integer dimension matrix within the stated shapes (entries -1..2 up to 3x3 / 4x2, and all 3x2 matrices with entries -3..3, whose null vectors mix co-prime denominators) for both pi_theorem entry points, is executed on the real code and compared with dict-of-Fraction arithmetic. The laws are algebraic identities over finitely many branch shapes, so a wrong branch shows at the smallest instance; the enumeration is complete within the bound.', 'note': 'Trusted: the 40-line exponent-vector model and Fraction rank computation in checks/c04_group.py; float exponents are dyadic so arithmetic is exact. Not covered: containers with more than 3 names, exponents outside the alphabet, matrices larger than 4x3.', 'ref': 'DESIGN.md §4 C04'}
 MANIFEST["text"] += ' Rational powers: default containers with integer exponents raised to 1/10, 3/10, 1/3, 7/10, -1/10 keep the exact power laws.'
+MANIFEST["text"] += ' ParserHelper results (u**a, 1/u, u*u, u/u, u*1, copy) from a never-hashed and from a pre-hashed operand compare and hash equal to a helper built with the same exponents.'
